@@ -31,7 +31,7 @@ CHECKS["C13"] = {
     "text": "Proof-style obligations on single-path arithmetic bodies: each of the 14 operator/identity bodies equals the field formula as a rational "
             "function over Q (exact field arithmetic for exact element types); each of the 8 compound-assignment bodies, expanded statement by statement, "
             "is the same expression tree as its binary form modulo commutativity of + and * only (hence bit-identical IEEE results); no stale read of an "
-            "overwritten component; eq is the component conjunction, partial_cmp is lexicographic; abs = sqrt(abs_sqr), arg = atan2(imag, real).",
+            "overwritten component; eq is the component conjunction, partial_cmp is lexicographic and neither impl overrides a derived operator; abs = sqrt(abs_sqr), arg = atan2(imag, real).",
     "design_ref": "DESIGN.md §3 C13",
     "note": "Trait calls on T are interpreted as ring operations. Not decided: rounding-error size over f64, trichotomy/transitivity on NaN-free values "
             "(properties of f64's own ordering). Trusted: rustc typeck, the rule engine's symbolic executor and polynomial normal form.",
@@ -80,7 +80,7 @@ CHECKS["C04"] = {
             "padding and indexes x by the true column; the pivot search compares magnitudes and is an arg-max; the row exchange, the sign flip and the recorded index are "
             "paired; det multiplies the sign by the full pivot column; solve replays the recorded exchanges and multipliers with the same offsets.",
     "design_ref": "DESIGN.md §3 C04",
-    "note": "The left-shift/zero-fill and the elimination window (mutated loop-carried bound l) are outside the linear prover; agreement with the dense result and backward error are numerical.",
+    "note": "The initial left-shift/zero-fill is decided by resolving l as the induction variable m1 - i; the elimination window bound (l capped at n) is outside the linear prover; agreement with the dense result and backward error are numerical.",
     "technique": TECH + "single-fact linear entailment on index windows, magnitude/arg-max analysis, exchange/sign/index pairing, store/replay offset agreement",
 }
 CHECKS["C05"] = {
@@ -142,7 +142,9 @@ CHECKS["C10"] = {
     "text": "For every degree-n input: poly_solve returns a vector of length n on every path (zeros(degree), replaced only under degree==2/3 by helpers that allocate 2/3; "
             "the deflation loop writes every slot); the degree tests cover every usize with degree 0 rejected first; both roots() entry points copy all coefficients in order "
             "and forward refine; every reachable loop is a bounded for with an acyclic call graph (always returns); every complex division has a divisor that is a non-zero "
-            "literal, a leading coefficient, dominated by a zero/magnitude test, or allow-listed by name with its reason (this found x^2 -> NaN); polishing uses the undeflated "
+            "literal, a leading coefficient, dominated by a zero/magnitude test, or allow-listed by name with its reason (this found x^2 -> NaN); no numerical decision is taken "
+            "by the lexicographic order of complex values (this found the Cardano sign defect: x^3 + 8i -> garbage); the triple-root shortcut needs d0 == 0 && d1 == 0; "
+            "the snap-to-real test drops the component that was tested small; the Laguerre fallback step cannot vanish; polishing uses the undeflated "
             "coefficients; deflation is synthetic division.",
     "design_ref": "DESIGN.md §3 C10",
     "note": "Accuracy (backward error), finiteness in general, matching with the true roots and convergence of Laguerre's iteration are numerical and not decided statically. "
